@@ -28,6 +28,9 @@ type StreamingState struct {
 	outputTokens     int
 	messageStartSent bool
 	sawStreamData    bool // at least one "data:" line carried a JSON object or the [DONE] marker
+	sawValidChunk    bool // at least one "data:" line carried a JSON object
+	sawMalformed     bool // at least one "data:" line carried something that is not JSON
+	sawDone          bool // the [DONE] marker was seen: whatever follows is not part of the completion
 }
 
 // convert openai sse stream to anthropic format
@@ -49,14 +52,32 @@ func (t *Translator) TransformStreamingResponse(ctx context.Context, openaiStrea
 	// sync streaming for now (async needs more work for agent workflows)
 	streamErr := t.transformStreamingSync(ctx, openaiStream, w, rc, state)
 
+	// A read error after the [DONE] marker (a connection that was not shut down cleanly) takes
+	// nothing away from the completion, which is already whole.
+	if streamErr != nil && state.sawDone && ctx.Err() == nil {
+		streamErr = nil
+	}
+
 	if streamErr != nil {
+		if !state.messageStartSent {
+			// Nothing has been sent: leave the response untouched so that the caller can still
+			// answer with a proper error status instead of an empty 200 event stream.
+			w.Header().Del(constants.HeaderContentType)
+			w.Header().Del("Cache-Control")
+			w.Header().Del("Connection")
+			return streamErr
+		}
+		// The message is under way and cannot be taken back: end it the way the Anthropic
+		// protocol ends a failed stream, with an error event, not by falling silent.
+		t.writeStreamError(w, rc, streamErr)
 		return streamErr
 	}
 
 	// A 200 answer that held nothing resembling an OpenAI stream (an HTML page, a bare JSON
-	// value, plain text) is a backend failure, not an empty completion: say so while nothing has
-	// been sent yet. A stream that is merely empty ([DONE] only) still becomes an empty message.
-	if !state.messageStartSent && !state.sawStreamData {
+	// value, plain text, or chunks that are all unparseable) is a backend failure, not an empty
+	// completion: say so while nothing has been sent yet. A stream that is merely empty
+	// ([DONE] only) still becomes an empty message.
+	if !state.messageStartSent && !state.sawValidChunk && (state.sawMalformed || !state.sawStreamData) {
 		w.Header().Del("Cache-Control")
 		w.Header().Del("Connection")
 		t.WriteError(w, fmt.Errorf("backend response contained no completion stream"), http.StatusBadGateway)
@@ -80,6 +101,21 @@ func (t *Translator) TransformStreamingResponse(ctx context.Context, openaiStrea
 	}
 
 	return nil
+}
+
+// writeStreamError ends a stream that has already started with an Anthropic error event
+func (t *Translator) writeStreamError(w http.ResponseWriter, rc *http.ResponseController, cause error) {
+	event := map[string]interface{}{
+		"type": "error",
+		"error": map[string]interface{}{
+			"type":    "api_error",
+			"message": fmt.Sprintf("stream from backend ended with an error: %v", cause),
+		},
+	}
+	if err := t.writeEvent(w, "error", event); err != nil {
+		return
+	}
+	_ = rc.Flush()
 }
 
 // process stream using blocking scanner, safer and simpler
@@ -124,13 +160,16 @@ func (t *Translator) processStreamLine(line string, state *StreamingState, w htt
 	data := strings.TrimPrefix(line, "data: ")
 	if strings.TrimSpace(data) == "[DONE]" {
 		state.sawStreamData = true
+		state.sawDone = true
 		return nil
 	}
 
 	var chunk map[string]interface{}
 	if err := json.Unmarshal([]byte(data), &chunk); err == nil {
 		state.sawStreamData = true
+		state.sawValidChunk = true
 	} else {
+		state.sawMalformed = true
 		// log bad chunks but keep going, partial responses better than nothing
 		t.logger.Warn("Malformed chunk encountered, skipping", "error", err,
 			"data", util.TruncateString(data, util.DefaultTruncateLengthPII), "data_len", len(data))
